@@ -487,7 +487,7 @@ func dpCfgRec(st dpStep, cfg *types.SetupConfig, eniName, slave string) vt.M {
 		"ip4": dpNetIP(cfg.ContainerIPNet.IPv4), "len4": dpNetLen(cfg.ContainerIPNet.IPv4), "ip6": dpNetIP(cfg.ContainerIPNet.IPv6), "len6": dpNetLen(cfg.ContainerIPNet.IPv6),
 		"gw4": dpIP(cfg.GatewayIP.IPv4), "gw6": dpIP(cfg.GatewayIP.IPv6), "egw4": dpIP(egw.IPv4), "egw6": dpIP(egw.IPv6),
 		"strip": cfg.StripVlan, "defroute": cfg.DefaultRoute, "multi": cfg.MultiNetwork, "peer": !cfg.DisableCreatePeer, "extra": extra,
-		"host4": dpNetIP(cfg.HostIPSet.IPv4), "host6": dpNetIP(cfg.HostIPSet.IPv6), "aset": st.aset}
+		"host4": dpNetIP(cfg.HostIPSet.IPv4), "host6": dpNetIP(cfg.HostIPSet.IPv6), "aset": st.aset, "enigone": false}
 }
 
 func dpLinkRec(nsID int, l netlink.Link, name string, kind string, peer int) vt.M {
@@ -660,6 +660,10 @@ func dpRandomScenarios(n int, level int) [][]dpStep {
 		trunkENI := map[int]bool{1: level == 1 && rng.Intn(3) == 0, 2: level == 1 && rng.Intn(3) == 0}
 		steps := 3 + rng.Intn(5)
 		for j := 0; j < steps; j++ {
+			if level == 2 && len(live) > 0 && rng.Intn(6) == 0 {
+				sc = append(sc, dpStep{a: "enigone", eni: 1 + rng.Intn(2)})
+				continue
+			}
 			p := 1 + rng.Intn(3)
 			if live[p] && (level == 2 || rng.Intn(3) == 0) {
 				if level == 2 {
@@ -842,6 +846,7 @@ type dpRealWorld struct {
 	pods   map[int]*dpPod
 	eniIdx map[int]int // shared stand-in ENIs: number -> ifindex in the host namespace
 	nDed   int
+	eniGone map[int]bool                 // shared stand-in ENIs that were deleted ("detached") during the scenario
 	freed  map[int]*terwayTypes.IPNetSet // pod slot -> address of the slot's last pod (first interface), after its teardown
 }
 
@@ -874,7 +879,7 @@ func (rw *dpRealWorld) addENI(name string) int {
 
 // newRealWorld turns the (private) namespace the test runs in into a node: lo, eth0 with the node addresses and default routes, two ENIs.
 func newRealWorld(t *testing.T) *dpRealWorld {
-	rw := &dpRealWorld{t: t, pods: map[int]*dpPod{}, eniIdx: map[int]int{}, freed: map[int]*terwayTypes.IPNetSet{}}
+	rw := &dpRealWorld{t: t, pods: map[int]*dpPod{}, eniIdx: map[int]int{}, freed: map[int]*terwayTypes.IPNetSet{}, eniGone: map[int]bool{}}
 	var err error
 	rw.host, err = ns.GetCurrentNS()
 	rw.must(err, "host ns")
@@ -1022,7 +1027,12 @@ func (rw *dpRealWorld) teardown(p int, how string) error {
 		}
 	}
 	for _, cfg := range append(cfgs, pod.failed...) {
-		td := &types.TeardownCfg{DP: cfg.DP, ContainerIPNet: cfg.ContainerIPNet, ServiceCIDR: cfg.ServiceCIDR, ENIIndex: cfg.ENIIndex}
+		// parseTearDownConf resolves the ENI by MAC; when it is gone from the node the index stays 0
+		eniIndex := cfg.ENIIndex
+		if _, err := netlink.LinkByIndex(eniIndex); err != nil {
+			eniIndex = 0
+		}
+		td := &types.TeardownCfg{DP: cfg.DP, ContainerIPNet: cfg.ContainerIPNet, ServiceCIDR: cfg.ServiceCIDR, ENIIndex: eniIndex}
 		if how == "dp" {
 			td.HostVETHName = cfg.HostVETHName
 			td.ContainerIfName = cfg.ContainerIfName
@@ -1079,7 +1089,9 @@ func (rw *dpRealWorld) rgets(w *vt.Writer) {
 			ask(0, nil, ip, "")
 			ask(0, ext[fam], ip, "eth0")
 			if a.st.dp == "policy" {
-				ask(0, ext[fam], ip, rw.linkName(a.cfg.ENIIndex))
+				if eniName := rw.linkName(a.cfg.ENIIndex); eniName != "" {
+					ask(0, ext[fam], ip, eniName)
+				}
 				ask(0, ip, ext[fam], a.cfg.HostVETHName)
 				for _, b := range atts {
 					bn := map[int]*net.IPNet{4: b.cfg.ContainerIPNet.IPv4, 6: b.cfg.ContainerIPNet.IPv6}[fam]
@@ -1134,6 +1146,9 @@ func TestVerifDatapathL2(t *testing.T) {
 				if st.dp != "policy" && st.dp != "exclusive" {
 					continue
 				}
+				if st.dp == "policy" && rw.eniGone[st.eni] {
+					continue // no pod is scheduled onto an ENI that is gone
+				}
 				eniIndex := rw.prepare(st)
 				w.Emit(vt.M{"ev": "env", "what": "pod namespace / ENI present", "dump": rw.dump()})
 				rec, err := rw.setup(st, eniIndex)
@@ -1142,6 +1157,17 @@ func TestVerifDatapathL2(t *testing.T) {
 					es = err.Error()
 				}
 				w.Emit(vt.M{"ev": "setup_d", "step": dpStepRec(st), "cfg": rec, "ok": err == nil, "err": es, "dump": rw.dump()})
+			case "enigone":
+				// the ENI is detached / unplugged while pods may still use it
+				if rw.eniGone[st.eni] || rw.eniIdx[st.eni] == 0 {
+					continue
+				}
+				l, err := netlink.LinkByIndex(rw.eniIdx[st.eni])
+				rw.must(err, "vanishing ENI")
+				name := l.Attrs().Name
+				rw.must(netlink.LinkDel(l), "delete ENI")
+				rw.eniGone[st.eni] = true
+				w.Emit(vt.M{"ev": "enigone", "step": dpStepRec(st), "eni": name, "dump": rw.dump()})
 			case "teardown":
 				if rw.pods[st.p] == nil {
 					continue
